@@ -25,7 +25,7 @@ STUBS = ['receivers are Interpreter subclasses whose queue() logs and defers to 
 ASSUMPTIONS = ['one fixed family of small sender/receiver charts', 'delays >= 0, exact reals; parameters unbounded integers']
 OUTSIDE = ['more than three interpreters / two callables', 'binding during a macro step other than by detach from a callable',
            'threads (C20)']
-DETACH = ['none', 'between_T2', 'between_first', 'during_later', 'during_self', 'during_later_rebind']
+DETACH = ['none', 'between_T2', 'between_first', 'during_later', 'during_self', 'during_later_rebind', 'double_bind']
 
 
 def shards(level):
@@ -132,8 +132,16 @@ def harness(g, job, level, canary=False):
     if detach_mode.startswith('during') and 'c1' not in order:
         return
     state = {'detached': None, 'rebound': False}
+    callables = {}
     for x in order:
-        listeners[x] = S.bind(T[x] if x in T else mk_callable(x))
+        if x not in T:
+            callables[x] = mk_callable(x)
+        listeners[x] = S.bind(T[x] if x in T else callables[x])
+    if detach_mode == 'double_bind' and len(order) >= 2:
+        first = order[0]
+        extra = S.bind(T[first] if first in T else callables[first])   # the same target bound again, last
+        S.detach(extra)            # only this second binding goes away: [first, ...] keeps its order
+        g.witness('detached_gets_nothing')
     if cycle and 'T1' in order:
         T['T1'].bind(S.queue)
     for it in list(T.values()):
